@@ -5,7 +5,9 @@ from .core import origins, callee, callee_decl, is_log
 
 WRITE_FNS = ('std::io::Write::write', 'std::io::Write::write_all', 'std::os::unix::fs::FileExt::write_at',
              'bytes::BufMut::put_slice', 'bytes::buf::BufMut::put_slice', 'std::vec::Vec::extend_from_slice')
-READ_FNS = ('std::io::Read::read', 'std::io::Read::read_exact', 'std::os::unix::fs::FileExt::read_at')
+READ_FNS = ('std::io::Read::read', 'std::io::Read::read_exact', 'std::os::unix::fs::FileExt::read_at',
+            'futures::AsyncReadExt::read', 'futures::AsyncReadExt::read_exact', 'futures::io::AsyncReadExt::read',
+            'tokio::io::AsyncReadExt::read', 'tokio::io::AsyncReadExt::read_exact')
 
 
 def _width_of_type(ty):
